@@ -196,6 +196,32 @@ impl Session<JunosLocal> {
     }
 }
 
+#[cfg(feature = "verif")]
+impl<T: Transport> Session<T> {
+    /// Verification hook: establish a NETCONF session over an arbitrary [`Transport`].
+    ///
+    /// # Errors
+    ///
+    /// Exactly those of the private constructor shared by all transports.
+    pub async fn verif_establish(transport: T) -> Result<Self, Error> {
+        Self::new(transport).await
+    }
+}
+
+#[cfg(all(feature = "verif", feature = "junos"))]
+impl Session<JunosLocal> {
+    /// Verification hook: like [`Session::junos_local`], but spawning `program` with `args`
+    /// in place of the Junos `cli` binary.
+    ///
+    /// # Errors
+    ///
+    /// As for [`Session::junos_local`].
+    pub async fn verif_junos_local(program: &str, args: &[&str]) -> Result<Self, Error> {
+        let transport = JunosLocal::verif_connect(program, args).await?;
+        Self::new(transport).await
+    }
+}
+
 impl<T: Transport> Session<T> {
     #[tracing::instrument(skip(transport), level = "trace")]
     async fn new(transport: T) -> Result<Self, Error> {
